@@ -28,6 +28,9 @@ class PLWriter(ModelToText):
         XOR = 'XOR'
         MUX = 'MUX'
 
+        def __str__(self) -> str:
+            return str(self.value)
+
     @staticmethod
     def get_destination_extension() -> str:
         return 'exp'
@@ -102,7 +105,7 @@ def get_alternative_formula(relation: Relation) -> str:
     children = [child.name for child in relation.children]
     for child in children:
         children_negatives = [ch for ch in children if ch != child]
-        children_neg_str = [f"{PLWriter.LogicConnective.NOT}" + ch for ch in children_negatives]
+        children_neg_str = [f"{PLWriter.LogicConnective.NOT} " + ch for ch in children_negatives]
         formula.append(f'{child} {PLWriter.LogicConnective.EQUIVALENCE} '
                        f'({f" {PLWriter.LogicConnective.AND} ".join(children_neg_str)} '
                        f'{PLWriter.LogicConnective.AND} {parent})')
@@ -115,7 +118,7 @@ def get_mutex_formula(relation: Relation) -> str:
     children = [child.name for child in relation.children]
     for child in children:
         children_negatives = [ch for ch in children if ch != child]
-        children_neg_str = [f"{PLWriter.LogicConnective.NOT}" + cn for cn in children_negatives]
+        children_neg_str = [f"{PLWriter.LogicConnective.NOT} " + cn for cn in children_negatives]
         formula.append(f'{child} {PLWriter.LogicConnective.EQUIVALENCE} '
                        f'({f" {PLWriter.LogicConnective.AND} ".join(children_neg_str)} '
                        f'{PLWriter.LogicConnective.AND} {parent})')
@@ -134,7 +137,7 @@ def get_cardinality_formula(relation: Relation) -> str:
         combi_k = list(itertools.combinations(children, k))
         for positives in combi_k:
             negatives = [child for child in children if child not in positives]
-            negatives_str = [f"{PLWriter.LogicConnective.NOT}" + f for f in negatives]
+            negatives_str = [f"{PLWriter.LogicConnective.NOT} " + f for f in negatives]
             positives_and_ctc = f'{f" {PLWriter.LogicConnective.AND} ".join(positives)}'
             negatives_and_ctc = f'{f" {PLWriter.LogicConnective.AND} ".join(negatives_str)}'
             if positives_and_ctc and negatives_and_ctc:
